@@ -37,6 +37,10 @@ def bindings(rnd, n):
         (((0.6, 0.6, 0.6), "white", False), ("(0.6, 0.6, 0.6)", "white", False)),
         (((200.0, 0.5, 0.5), "#ffffff", False), ("(200.0, 0.5, 0.5)", "#ffffff", False)),
         (([119, 119, 119], "#ffffff", False), ("[119, 119, 119]", "#ffffff", False)),
+        # CSS-wide / special keywords that are NOT colours of this library: invalid in a fresh interpreter, so invalid always
+        (("#777777", "transparent", False), ("transparent", "#ffffff", False)),
+        (("currentcolor", "#ffffff", False), ("#777777", "TRANSPARENT", True)),
+        (("inherit", "#000000", False), ("#888888", "initial", False)),
     ]
     out += fixed
     while len(out) < n:
@@ -187,7 +191,7 @@ def main():
     rep.add_model("ApiHist(Depth=3,NP=2) history generator", r, "abstract histories replayed into the implementation")
     hists = [h for h in hists if len(h) >= 2 and any(o[0] in ("fix", "bulk") for o in h[1:])]
     rep.extra["histories_enumerated_by_tlc"] = len(hists)
-    nb = 17 if t == "quick" else 40
+    nb = 21 if t == "quick" else 44
     binds = bindings(rnd, nb)
     nh = 420 if t == "quick" else 9000
     jobs = []
